@@ -43,6 +43,19 @@ def main():
         summ = re.findall(r"(\d+) failed, (\d+) passed", out)
         meta["suite_summary"] = out.strip().split("\n")[-1]
         extra = failed - ALWAYS_FAIL - FLAKE
+        # tests that depend on which test ran first in their xdist worker (the first add_destinations of a process delivers the
+        # buffered backlog) fail now and then under -n 4 on the unmodified tree too: re-run each new failure alone
+        flaky = set()
+        for tid in sorted(extra):
+            mod, rest = tid.rsplit(".", 1)[0], tid
+            path = tid.split("::")[0]
+            parts = path.split(".")
+            node = "/".join(parts[:-1]) + ".py::" + parts[-1] + "::" + tid.split("::")[1]
+            rr = sh("cd %s && /venv/bin/python -m pytest -q -p no:cacheprovider --timeout=300 '%s' 2>&1 | tail -3" % (WT, node), env=env, timeout=900)
+            if re.search(r"\b1 passed", rr.stdout.decode()):
+                flaky.add(tid)
+        meta["suite_failures_passing_alone"] = sorted(flaky)
+        extra = extra - flaky
         meta["suite_new_failures"] = sorted(extra)
         meta["suite_passes"] = bool(summ) and not extra and int(summ[-1][1]) >= 403
         det = {}
@@ -76,7 +89,7 @@ shutil.copy(os.path.join(src, "demo.py"), dst)
 if os.path.exists(notes):
     shutil.copy(notes, dst)
 meta["what_was_run"] = ("scratch worktree of /repo HEAD: demo.py on the clean tree (exit 0 expected), git apply patch.diff, demo.py again (non-zero expected), "
-                        "full test suite with -n 4 (only the 19 always-failing baseline tests, and possibly the order-dependent flake test_global_cleanup, may fail), "
+                        "full test suite with -n 4 (only the 19 always-failing baseline tests, and possibly the order-dependent flake test_global_cleanup, may fail; any other failure is re-run alone and counts only if it fails alone too), "
                         "then ./check <ids> quick with VERIF_REPO pointing at the changed tree")
 json.dump(meta, open(os.path.join(dst, "meta.json"), "w"), indent=1)
 print(name, "valid" if ok else "INVALID", "detected_by", meta.get("detected_by"), meta.get("suite_summary"))
